@@ -108,6 +108,16 @@ where
         }
     }
 
+    /// Abscissa of the enforced first output: x0 advanced by |first_step| in the direction of
+    /// integration, or xend itself when the first step covers the whole interval.
+    fn first_output_target(&self, h0: Float, direction: Float) -> Float {
+        if h0.abs() >= (self.xend - self.x0).abs() {
+            self.xend
+        } else {
+            self.x0 + direction * h0.abs()
+        }
+    }
+
     /// Consumes the handler and returns all collected data.
     pub fn into_payload(
         self,
@@ -343,11 +353,11 @@ impl<'a, F: IVP> SolOut for DefaultSolOut<'a, F> {
                             // A pending first output (x0 + first_step) that lies before the event
                             // inside this step is part of the solution as well.
                             if let (None, Some(h0), Some(interp)) = (self.t_eval.as_ref(), self.first_step, interpolant) {
-                                if !self.first_output_done && (xold - *x).abs() > self.tol {
+                                if !self.first_output_done && xold != *x {
                                     let direction = (*x - xold).signum();
-                                    let step = h0.abs().min((self.xend - self.x0).abs());
-                                    let target = self.x0 + direction * step;
-                                    if direction * (*x - target) >= -self.tol && direction * (event_t - target) > 0.0 {
+                                    let target = self.first_output_target(h0, direction);
+                                    let slack = 4.0 * Float::EPSILON * x.abs().max(target.abs());
+                                    if direction * (*x - target) >= -slack && direction * (event_t - target) > 0.0 {
                                         let mut yi = vec![0.0; y.len()];
                                         interp.interpolate(target, &mut yi);
                                         self.t.push(target);
@@ -442,15 +452,19 @@ impl<'a, F: IVP> SolOut for DefaultSolOut<'a, F> {
             if let Some(h0) = self.first_step {
                 // First-step enforcement: skip intermediate outputs until we reach/pass
                 // the target, then interpolate to the exact point.
-                if !self.first_output_done && (xold - *x).abs() > self.tol {
+                // (the initial callback has xold == x exactly; accepted steps shorter than the
+                // matching tolerance are steps like any other and must be withheld as well)
+                if !self.first_output_done && xold != *x {
                     let direction = (*x - xold).signum();
                     // For backward integration (direction < 0), target is x0 - |h0|.
                     // The solvers take |h0| in the direction of integration and never step
                     // past xend, so the target does the same.
-                    let step = h0.abs().min((self.xend - self.x0).abs());
-                    let target = self.x0 + direction * step;
-                    
-                    if direction * (*x - target) >= -self.tol {
+                    let target = self.first_output_target(h0, direction);
+
+                    // Reached or passed, up to rounding of the abscissae (an absolute slack would
+                    // fire at once on spans of its own size and emit the target ahead of earlier steps)
+                    let slack = 4.0 * Float::EPSILON * x.abs().max(target.abs());
+                    if direction * (*x - target) >= -slack {
                         // We've reached or passed the target point
                         if let Some(interp) = interpolant {
                             let mut yi = vec![0.0; y.len()];
@@ -461,7 +475,7 @@ impl<'a, F: IVP> SolOut for DefaultSolOut<'a, F> {
                         }
                         
                         // Also output current endpoint if distinct from target
-                        if (*x - target).abs() > self.tol {
+                        if (*x - target).abs() > slack {
                             self.t.push(*x);
                             self.y.push(y.to_vec());
                         }
